@@ -16,7 +16,7 @@ Inductive pcond :=
 | COpened                     (* c.opened *)
 | CAnd (a b : pcond).
 
-Inductive pcall := PWrite | PRead | PClose.   (* el.write(c) | el.read(c) | el.close(c, io.EOF) *)
+Inductive pcall := PWrite | PRead | PClose (nil_err : bool).   (* el.write(c) | el.read(c) | el.close(c, nil / io.EOF) *)
 
 Inductive pstmt :=
 | SIf (c : pcond) (body : list pstmt)
@@ -38,7 +38,7 @@ Definition pcall_run (fuel : nat) (f : pcall) (cid : Z) (w : world) : res * worl
   match f with
   | PWrite => el_write fuel cid 0 w
   | PRead => el_read fuel cid 0 w
-  | PClose => el_close fuel cid false w
+  | PClose e => el_close fuel cid e w
   end.
 
 (* None = fell through to the next statement, Some r = returned r *)
@@ -88,4 +88,14 @@ Definition pio_run (fuel : nat) (prog : list pstmt) (cid ev : Z) (w : world) : r
 (* what the model declares about the poller, checked against the source by genloop *)
 Definition polling_callback_sentinels : list string := ["ErrAcceptSocket"; "ErrEngineShutdown"].
 Definition polling_task_sentinels : list string := ["ErrEngineShutdown"].
-Definition model_iov_max : Z := 1024.
+(* errno values of accept4 that el.accept / el.accept0 tolerate (sorted); anything else is ErrAcceptSocket *)
+Definition accept_tolerated : list string := ["eagain"; "econnaborted"; "econnreset"; "eintr"].
+(* where the loop's I/O code mentions an errno: the model's `is_eagain` tests, one per site, in source order *)
+Definition errno_sites : list (string * string) :=
+  [("eventloop.read", "eagain"); ("eventloop.write", "eagain"); ("eventloop.readUDP", "eagain");
+   ("conn.open", "eagain"); ("conn.write", "eagain"); ("conn.writev", "eagain")].
+Definition polling_wait_retry : list string := ["EINTR"].
+(* what OpenPoller / Polling use for the two queue limits; drv-loop passes the values of the
+   current pkg/netpoll in the cfg line of every case *)
+Definition default_thr : Z := 1024.
+Definition default_maxlow : Z := 256.
